@@ -113,9 +113,25 @@ pub(crate) fn parse_instruction(input: ParserInput) -> InternalParserResult<Inst
                 Command::Pulse => command::parse_pulse(remainder, false),
                 Command::Capture => command::parse_capture(remainder, false),
                 Command::RawCapture => command::parse_raw_capture(remainder, false),
-                _ => todo!(),
+                _ => Err(nom::Err::Failure(InternalParseError::from_kind(
+                    &input[1..],
+                    ParserErrorKind::ExpectedToken {
+                        actual: Token::Command(*command),
+                        expected: "PULSE, CAPTURE, or RAW-CAPTURE".to_owned(),
+                    },
+                ))),
             },
-            _ => todo!(),
+            Some((other_token, _)) => Err(nom::Err::Failure(InternalParseError::from_kind(
+                remainder,
+                ParserErrorKind::ExpectedToken {
+                    actual: other_token.clone(),
+                    expected: "PULSE, CAPTURE, or RAW-CAPTURE".to_owned(),
+                },
+            ))),
+            None => Err(nom::Err::Failure(InternalParseError::from_kind(
+                remainder,
+                ParserErrorKind::UnexpectedEOF("PULSE, CAPTURE, or RAW-CAPTURE"),
+            ))),
         },
         Some((Token::Identifier(_), _)) | Some((Token::Modifier(_), _)) => gate::parse_gate(input),
         Some((_, _)) => Err(nom::Err::Failure(InternalParseError::from_kind(
